@@ -308,6 +308,20 @@ def g_lambda(S, G):
                 yield P('LAMBDA', TM(a), TM(o[0]), b)
 
 
+def g_lambda_exec(S, G):
+    """{ LAMBDA a b body ; SWAP ; EXEC } applied to the value on top of the stack (and the LAMBDA_REC analogue)"""
+    if not S:
+        return
+    for gen in (g_lambda, g_lambda_rec):
+        for lam in gen(S, G):
+            a = R.parse_type(lam['args'][0])
+            if a == S[0]:
+                yield [lam, P('SWAP'), P('EXEC')]
+    if S[0] == R.T_INT:
+        for lam in (REC_SUM, REC_CONST):
+            yield [lam, P('SWAP'), P('EXEC')]
+
+
 def g_lambda_rec(S, G):
     for a, r in ((R.T_INT, R.T_INT), (R.T_NAT, T('list nat'))):
         lam = ('lambda', a, r)
@@ -355,7 +369,7 @@ THEMES = [
                                                                                  P('LEFT', P('string')), P('RIGHT', P('int')), P('RIGHT', P('nat')), P('LEFT', P('nat'))]),
     Theme('lambdas', [['int', 'int'], ['pair int int', 'int'], ['lambda int int', 'int'], ['lambda (pair int string) int', 'int', 'string'],
                       ['unit'], ['nat']],
-          [g_lambda, g_lambda_rec, REC_SUM, REC_CONST, REC_SELF, P('EXEC'), P('APPLY'), g_dip, g_push_same] + S_('SWAP', 'DUP', 'DROP', 'PAIR', 'ADD', 'UNIT')
+          [g_lambda, g_lambda_rec, g_lambda_exec, REC_SUM, REC_CONST, REC_SELF, P('EXEC'), P('APPLY'), g_dip, g_push_same] + S_('SWAP', 'DUP', 'DROP', 'PAIR', 'ADD', 'UNIT')
           + N_('DUP', 2, 3) + N_('DIG', 2) + [g_push(('int', [3, 5]), ('string', [1]), ('lambda int int', [1, 3]))],
           body=S_('DROP', 'DUP', 'SWAP', 'ADD', 'MUL', 'CAR', 'CDR', 'UNPAIR', 'PAIR', 'EXEC', 'NEG', 'NIL_NAT', 'CONS') + N_('DUP', 2) + [P('FAILWITH'), g_push(('int', [1]), ('nat', [1])), P('DIP', [P('DROP')])]),
     Theme('structures', [['int', 'nat', 'string'], ['pair int nat string bool', 'bytes'], ['pair (pair int nat) (pair string (pair bool unit))', 'int'],
@@ -418,9 +432,12 @@ def _fix(ins):
 
 
 class Gen:
-    def __init__(self, theme, max_len, body_len, width, site_cap, nest, rng):
-        self.t, self.max_len, self.body_len, self.width, self.site_cap, self.nest, self.rng = theme, max_len, body_len, width, site_cap, nest, rng
-        self._bodies = {}
+    """Enumerator for one theme.  groups(S) = for every alphabet entry the list of concrete instructions it offers on
+    stack type S that the reference typing rules accept (with the resulting stack type)."""
+
+    def __init__(self, theme, body_len, width, site_cap, nest, rng):
+        self.t, self.body_len, self.width, self.site_cap, self.nest, self.rng = theme, body_len, width, site_cap, nest, rng
+        self._bodies, self._groups = {}, {}
         self._depth = 0
         self._flip = 0
 
@@ -428,12 +445,22 @@ class Gen:
         self._flip ^= 1
         return self._flip
 
-    def candidates(self, alphabet, S):
-        for a in alphabet:
-            if callable(a):
-                yield from a(S, self)
-            else:
-                yield _fix(a)
+    def groups(self, which, S):
+        key = (which, S, self._depth)
+        if key not in self._groups:
+            out = []
+            for a in (self.t.alphabet if which == 'top' else self.t.body):
+                items = list(a(S, self)) if callable(a) else [_fix(a)]
+                ok = []
+                for ins in items:
+                    try:
+                        ok.append((ins, R.tc_instr(R.freeze(ins), S)))
+                    except R.RefError:
+                        continue
+                if ok:
+                    out.append(ok)
+            self._groups[key] = out
+        return self._groups[key]
 
     def bodies(self, S):
         """all bodies of length 0..body_len over the body alphabet accepted from S, with their result stacks"""
@@ -444,32 +471,57 @@ class Gen:
         if self._depth < self.nest:
             self._depth += 1
             try:
-                out += list(self._seqs(self.t.body, tuple(S), self.body_len))
+                out += list(self._seqs('body', tuple(S), self.body_len))
             finally:
                 self._depth -= 1
         self._bodies[key] = out
         return out
 
-    def _seqs(self, alphabet, S, max_len, prefix=()):
-        for ins in self.candidates(alphabet, S):
-            try:
-                S2 = R.tc_instr(R.freeze(ins), S)
-            except R.RefError:
-                continue
-            prog = list(prefix) + [ins]
-            yield prog, S2
-            if len(prog) < max_len and S2 != FAILED:
-                yield from self._seqs(alphabet, S2, max_len, prog)
+    def _seqs(self, which, S, max_len, prefix=()):
+        for grp in self.groups(which, S):
+            for ins, S2 in grp:
+                prog = list(prefix) + [ins]
+                yield prog, S2
+                if len(prog) < max_len and S2 != FAILED:
+                    yield from self._seqs(which, S2, max_len, prog)
 
-    def programs(self, S0):
-        yield from self._seqs(self.t.alphabet, tuple(S0), self.max_len)
+    def exhaustive(self, S0, max_len):
+        """every accepted program of length 1..max_len"""
+        yield from self._seqs('top', tuple(S0), max_len)
+
+    def walk(self, S0, length):
+        """one seeded type-directed walk: at each step an alphabet entry is drawn uniformly among those applicable to the
+        current stack type, then one of the instructions it offers"""
+        S, prog = tuple(S0), []
+        for _ in range(length):
+            if S == FAILED:
+                break
+            grps = self.groups('top', S)
+            if not grps:
+                break
+            grp = grps[self.rng.randrange(len(grps))]
+            ins, S = grp[self.rng.randrange(len(grp))]
+            prog.append(ins)
+        return prog, S
 
 
-def enumerate_programs(theme, max_len, body_len, width=2, site_cap=12, nest=1, seed=0):
-    """-> list of (S0, program, S_final) for every initial stack of the theme"""
-    out = []
-    for S0 in theme.stacks:
-        g = Gen(theme, max_len, body_len, width, site_cap, nest, random.Random(seed))
-        for prog, Sf in g.programs(S0):
+def enumerate_programs(theme, exhaustive_len, walk_len, n_walks, body_len, width=2, site_cap=12, nest=1, seed=0):
+    """-> (list of (S0, program, S_final), exhaustive_count): for every initial stack of the theme all programs of
+    length <= exhaustive_len plus n_walks seeded walks of length exhaustive_len+1 .. walk_len (duplicates removed)"""
+    out, seen, n_ex = [], set(), 0
+    for si, S0 in enumerate(theme.stacks):
+        g = Gen(theme, body_len, width, site_cap, nest, random.Random(f'{seed}/{theme.name}/{si}'))
+        for prog, Sf in g.exhaustive(S0, exhaustive_len):
             out.append((S0, prog, Sf))
-    return out
+            seen.add((S0, R.freeze(prog)))
+            n_ex += 1
+        tries = 0
+        want = len(out) + n_walks
+        while len(out) < want and tries < 4 * n_walks and walk_len > exhaustive_len:
+            tries += 1
+            prog, Sf = g.walk(S0, g.rng.randrange(exhaustive_len + 1, walk_len + 1))
+            key = (S0, R.freeze(prog))
+            if len(prog) > exhaustive_len and key not in seen:
+                seen.add(key)
+                out.append((S0, prog, Sf))
+    return out, n_ex
